@@ -21,6 +21,8 @@ ObjsAt(T, i) == LET os == IF i = 0 THEN T.init ELSE T.events[i].objs IN [j \in 1
 OpOf(e) == [op |-> e.op, o |-> e.o, o2 |-> e.o2, c |-> e.c, x |-> e.x, cs |-> e.cs, xs |-> e.xs]
 
 Fail(name, j, cond) == IF cond THEN {} ELSE {<<"C17", name, j>>}
+\* behaviour beyond C17 (equality of game objects) is reported under X02, which only bin/check-extra X02 looks at
+FailX(name, j, cond) == IF cond THEN {} ELSE {<<"X02", name, j>>}
 
 GetterClauses(o, j) ==
   LET t == TabOf(o) IN
@@ -50,6 +52,13 @@ Failures(T, i, g2) ==
              \cup Fail("KnownHasLowerEqUpperEqValue", e.o, KnownIsExact(post, g2))
         ELSE {})
   \cup (IF T.light = 1 THEN {} ELSE UNION { GetterClauses(e.objs[j], j) : j \in 1..Len(e.objs) })
+  \* g == h compares the whole tables (known flags and both bounds); comparing with something that is not a game is refused
+  \cup (IF T.light = 1 THEN {} ELSE
+          FailX("EqualityIsTableEquality", e.o,
+               /\ Len(e.eq) = Len(post)
+               /\ \A a \in 1..Len(post) : Len(e.eq[a]) = Len(post) /\ \A b \in 1..Len(post) : (e.eq[a][b] = 1) <=> (post[a] = post[b])
+               /\ \A a \in 1..Len(post) : \A b \in 1..Len(post) : e.eq[a][b] \in {0, 1})
+     \cup FailX("ComparisonWithANonGameIsRefused", e.o, e.eq_other = 1))
 
 \* traces recorded by the drivers start at a freshly constructed object; traces of the repository's tests (light) may start at a copy,
 \* whose specified meaning is that of the table it was copied from
